@@ -176,6 +176,22 @@ func ruleJSONParse(c *Ctx, r *R) {
 			}
 		}
 	}
+	// 15.12.2 / 9.3.1: a JSON number is a Number value - the decoded float64, sign of zero included. A conversion of it to
+	// an integer type inside the walker (a "compact representation" for whole numbers) loses -0: 1/JSON.parse("-0") is -Infinity
+	narrowed := ""
+	for _, b := range walker.Blocks {
+		for _, ins := range b.Instrs {
+			if cv, ok := ins.(*ssa.Convert); ok {
+				fb, okf := cv.X.Type().Underlying().(*types.Basic)
+				tb, okt := cv.Type().Underlying().(*types.Basic)
+				if okf && okt && fb.Info()&types.IsFloat != 0 && tb.Info()&types.IsInteger != 0 {
+					narrowed = c.Pos(instrPos(cv))
+				}
+			}
+		}
+	}
+	r.check(narrowed == "", "walker-number", c.Pos(walker.Pos()), "numbers are handed over as the float64 the decoder produced",
+		"the JSON value walker converts a decoded number to an integer type ("+narrowed+"): the sign of zero is lost (`1/JSON.parse(\"-0\")` is +Infinity, ES5 15.12.2 with 9.3.1 gives -Infinity)")
 	r.check(puts == "" && defines > 0, "walker-members", c.Pos(walker.Pos()), "object members are created with [[DefineOwnProperty]]",
 		"the JSON value walker assigns object members with [[Put]] ("+puts+"): a setter or a read-only property of that name on Object.prototype swallows the member (`Object.defineProperty(Object.prototype, 'x', {set: f}); JSON.parse('{\"x\":1}').hasOwnProperty('x')` is false); ES5 15.12.2 creates them like an object literal does")
 }
